@@ -62,7 +62,9 @@ pub fn expand(sc: &Value, index: usize) -> Vec<Value> {
         let id = gs(sc, "id").to_string();
         let mut out = Vec::new();
         for variant in 0..5usize {
-            out.push(json!({"id": format!("{}/v{}", id, variant), "fields": fields, "code": 200, "variant": variant, "row": index,
+            // bodiless responses too: the hop-by-hop field must be hidden on every path
+            let (method, code) = [("GET", 200usize), ("HEAD", 200), ("GET", 204), ("GET", 304), ("POST", 404)][(index + variant) % 5];
+            out.push(json!({"id": format!("{}/v{}", id, variant), "fields": fields, "code": code, "method": method, "variant": variant, "row": index,
                 "mixcase": variant % 2 == 1}));
         }
         out
@@ -117,7 +119,7 @@ pub fn run(sc: &Value) -> Vec<String> {
     let world: Shared = Arc::new(Mutex::new(world));
     install_dialer(&world);
     let max_headers = guo(sc, "maxHeaders").unwrap_or(100);
-    let b = attohttpc::get("http://h.test/head")
+    let b = attohttpc::RequestBuilder::new(attohttpc::Method::from_bytes(gso(sc, "method").unwrap_or("GET").as_bytes()).unwrap(), "http://h.test/head")
         .proxy_settings(attohttpc::ProxySettings::builder().build())
         .follow_redirects(false)
         .max_headers(max_headers);
